@@ -15,6 +15,8 @@
 (* the last test (after earlier tests' analysis windows).  I-spec (DRIFT):   *)
 (* GlobalState!MidDebug while tests run, GlobalState!WinDebug in the window, *)
 (* and a window only with GlobalState!Window.                                *)
+(* hasNest / nestBefore / nestAfter: the first test performed a run itself   *)
+(* (before its mid-run snapshot): the globals right before / after that run. *)
 EXTENDS Naturals, Sequences, FiniteSets, TLC, Json, IOUtils, SequencesExt
 
 Recs == JsonDeserialize(IOEnv.TRACE_FILE)
@@ -26,6 +28,9 @@ Spec == Init /\ [][Next]_k
 G(r) == INSTANCE GlobalState WITH NTests <- 1, Deviations <- {}, PreChoices <- {},
                                   OptUniverse <- {}, PreDebugChoices <- {}, GChoices <- {},
                                   V4Choices <- {},
+                                  NestChoices <- {}, InnerOptUniverse <- {},
+                                  InnerEndings <- {}, MaxNest <- 0,
+                                  g0 <- 0, stack <- 0, nest <- 0,
                                   Opts <- ToSet(r.opts), PreHooks <- r.pre,
                                   PreDebug <- ToSet(r.before.gcDebugBits),
                                   GBits <- ToSet(r.gbits), v4 <- r.v4,
@@ -43,8 +48,12 @@ Verdict(r) ==
       mid == {x \in GL : r.before[x] # r.mid[x]} \ {"warnFilters"}
       midBits == {ToSet(r.mid.gcDebugBits), ToSet(r.mid2.gcDebugBits)}
       winBits == {ToSet(w) : w \in ToSet(r.win)}
+      \* a run performed by a test of this run (GlobalState!NestPush / NestPop):
+      \* the same clause, against what THAT run found
+      inner == IF r.hasNest THEN {x \in GL : r.nestBefore[x] # r.nestAfter[x]} ELSE {}
   IN IF ~r.began THEN <<"NOT-BEGUN", "">>
      ELSE IF plain # {} THEN <<"C18:not-restored", CHOOSE x \in plain : TRUE>>
+     ELSE IF inner # {} THEN <<"C18:nested-run-not-restored", CHOOSE x \in inner : TRUE>>
      ELSE IF hooks # {} THEN <<"C18:caller-hook-not-restored", CHOOSE x \in hooks : TRUE>>
      ELSE IF r.hasMid /\ mid # G(r)!PredictedMid \ {"warnFilters"}
           THEN <<"DRIFT", ToString(mid)>>
